@@ -31,8 +31,9 @@ struct Sched
 	explicit Sched(asio::io_context& i) : ios(i), timer(new asio::high_resolution_timer(i)) {}
 	void at(std::int64_t t, std::function<void()> fn)
 	{
-		items.push_back(Item{t, seq++, std::move(fn)});
-		std::stable_sort(items.begin(), items.end(), [](Item const& a, Item const& b) { return a.t < b.t; });
+		Item it{t, seq++, std::move(fn)};
+		auto pos = std::upper_bound(items.begin(), items.end(), it, [](Item const& a, Item const& b) { return a.t < b.t; });
+		items.insert(pos, std::move(it));
 		if (started && !firing) { timer->cancel(); arm(); }
 	}
 	void start() { started = true; arm(); }
@@ -112,6 +113,8 @@ struct World
 	bool check_c20 = false;
 	std::uint64_t next_id = 1;
 	std::uint64_t tiny_seq = 0;
+	std::unordered_map<std::uint64_t, std::vector<std::size_t>> index; // first min(8,len) bytes -> datagrams
+	std::map<std::pair<std::pair<std::uint64_t, std::uint64_t>, std::pair<int, int>>, std::uint64_t> last_delivered; // (src,dst,binding,sock) -> highest id delivered
 
 	World(Args const& a_, Rng& r, bool n) : a(a_), rng(r), with_nat(n) {}
 
@@ -250,6 +253,10 @@ struct World
 				d.on_wire = true;
 		if (d.on_wire && !d.accepted)
 			R().violation("C08", "rejected-datagram-sent", fmt("send_to reported error %d for a %d byte datagram but it was put on the wire", ec.value(), len));
+		{
+			std::size_t const k = std::min<std::size_t>(8, buf.size());
+			index[hcomb(fnv(buf.data(), k), k)].push_back(dgrams.size());
+		}
 		dgrams.push_back(d);
 	}
 
@@ -336,8 +343,16 @@ struct World
 		if (n > cap) { R().violation("C08", "receive-count-exceeds-buffers", fmt("receive reported %zu bytes into %zu bytes of buffers", n, cap)); return; }
 		// identify: earliest undelivered datagram addressed to an endpoint this socket has held, whose beginning matches
 		Dgram* m = nullptr; Dgram* dup = nullptr;
-		for (auto& d : dgrams)
+		std::vector<std::size_t> const* cand = nullptr;
 		{
+			std::size_t const k = std::min<std::size_t>(8, got.size());
+			auto it = index.find(hcomb(fnv(got.data(), k), k));
+			if (it != index.end()) cand = &it->second;
+		}
+		static std::vector<std::size_t> const none;
+		for (std::size_t di : (cand ? *cand : none))
+		{
+			Dgram& d = dgrams[di];
 			if (!d.accepted || n == 0) continue;
 			if (!prefix_matches(d, got)) continue;
 			if (std::size_t(d.len) != n && n != cap) continue; // shorter than the datagram only when the buffers were full
@@ -391,12 +406,13 @@ struct World
 					, d.src_visible.address().to_string().c_str(), unsigned(d.src_visible.port())));
 		if (d.src_visible != d.src_real) R().count("datagrams_delivered_through_nat");
 		// order between the same two endpoints
-		for (auto const& o : dgrams)
-			if (o.id > d.id && o.delivered > 0 && o.src_real == d.src_real && o.dst == d.dst && o.deliv_sock == u.id && o.binding_at_send == d.binding_at_send)
-			{
-				R().violation("C08", "out-of-order", who + fmt(": datagram %" PRIu64 " delivered after %" PRIu64 " which was sent later between the same endpoints", d.id, o.id));
-				break;
-			}
+		{
+			auto key = std::make_pair(std::make_pair(ep_hash(d.src_real), ep_hash(d.dst)), std::make_pair(d.binding_at_send, u.id));
+			auto it = last_delivered.find(key);
+			if (it != last_delivered.end() && it->second > d.id)
+				R().violation("C08", "out-of-order", who + fmt(": datagram %" PRIu64 " delivered after %" PRIu64 " which was sent later between the same endpoints", d.id, it->second));
+			if (it == last_delivered.end() || it->second < d.id) last_delivered[key] = d.id;
+		}
 		if (d.df && d.over_mtu)
 			R().violation("C20", "df-oversize-delivered", who + fmt(": datagram %" PRIu64 " of %d bytes exceeds the path MTU and was sent with don't-fragment set, yet it was delivered", d.id, d.len));
 	}
@@ -529,7 +545,8 @@ void gen_and_run(World& w, bool c20)
 	static std::vector<std::int64_t> const lats = {0, 1000, 1000000, 20000000, 200000000};
 	auto q = [&](bool finite) { QSpec s; s.bw = rng.coin(1, 2) ? int(rng.pick(std::vector<int>{20000, 200000, 5000000, 100000000})) : 0; s.lat_ns = rng.pick(lats);
 		s.cap = finite ? int(rng.pick(std::vector<int>{100, 1500, 3000, 20000, 70000, 300000})) : 0; return s; };
-	bool const finite = !c20 && rng.coin(1, 2);
+	bool const long_run = !c20 && rng.coin(1, 40);
+	bool const finite = !c20 && !long_run && rng.coin(1, 2);
 	for (auto const& n : w.nodes)
 	{
 		if (rng.coin()) w.net.out_spec[n.a].push_back(q(finite && rng.coin()));
@@ -556,7 +573,7 @@ void gen_and_run(World& w, bool c20)
 	{
 		USock& u = w.add_sock(rng.choose(nn));
 		u.rstyle = rng.choose(3);
-		u.rmode = c20 ? 0 : rng.pick(std::vector<int>{0, 0, 0, 1, 2});
+		u.rmode = (c20 || long_run) ? 0 : rng.pick(std::vector<int>{0, 0, 0, 1, 2});
 		u.slow_ns = rng.pick(std::vector<std::int64_t>{1000000, 50000000, 1000000000});
 		u.stop_after = rng.choose(10);
 		switch (rng.choose(4))
@@ -589,8 +606,20 @@ void gen_and_run(World& w, bool c20)
 	}
 	R().cur_desc = w.desc;
 
+	// now and then a long, steady flow into one always-reading socket: accounting that drifts by a few bytes
+	// per datagram only shows after thousands of them
+	if (long_run)
+	{
+		int const sid = send_ids[0], rid = recv_ids[0];
+		ip::udp::endpoint dst(w.nodes[std::size_t(w.socks[std::size_t(rid)]->node)].a, 6000);
+		int const n = 12000, len = int(rng.range(8, 200));
+		World* wp = &w;
+		for (int k = 0; k < n; ++k)
+			w.sched->at(std::int64_t(k) * 20000, [wp, sid, dst, len]() { wp->send(*wp->socks[std::size_t(sid)], dst, len, 1); });
+		R().count("long_steady_flows");
+	}
 	// timeline
-	int const nev = 1 + rng.choose(w.a.thorough() ? 120 : 60);
+	int const nev = long_run ? 0 : 1 + rng.choose(w.a.thorough() ? 120 : 60);
 	std::int64_t t = 0;
 	std::int64_t const gap = rng.pick(std::vector<std::int64_t>{0, 1000, 1000000, 100000000});
 	int big = 0;
